@@ -57,24 +57,26 @@ type row struct {
 		Drep int64 `json:"drep"`
 		Gov  int64 `json:"gov"`
 	} `json:"pp"`
-	Ins    []ent   `json:"ins"`
-	Outs   []ent   `json:"outs"`
-	Fee    int64   `json:"fee"`
-	Wds    []int64 `json:"wds"`
-	Mint   int64   `json:"mint"`
-	Mintb  int64   `json:"mintb"`
-	Don    int64   `json:"don"`
-	Nprop  int     `json:"nprop"`
-	P2     bool    `json:"p2"`     // build the transaction with is_valid = false
-	P2Wire bool    `json:"p2wire"` // ... and the flag is part of the transaction's own encoding
-	Accept bool    `json:"accept"`
-	CC     int64   `json:"cc"`
-	PC     int64   `json:"pc"`
-	CA     int64   `json:"ca"`
-	PA     int64   `json:"pa"`
-	CB     int64   `json:"cb"`
-	PB     int64   `json:"pb"`
-	Merged bool    `json:"merged"` // balances only if the two assets are confused
+	// the ledger state's pool table: pool ("A", "B", "old") -> "unknown" | "registered" | "retiring"
+	Pools  map[string]string `json:"pools"`
+	Ins    []ent             `json:"ins"`
+	Outs   []ent             `json:"outs"`
+	Fee    int64             `json:"fee"`
+	Wds    []int64           `json:"wds"`
+	Mint   int64             `json:"mint"`
+	Mintb  int64             `json:"mintb"`
+	Don    int64             `json:"don"`
+	Nprop  int               `json:"nprop"`
+	P2     bool              `json:"p2"`     // build the transaction with is_valid = false
+	P2Wire bool              `json:"p2wire"` // ... and the flag is part of the transaction's own encoding
+	Accept bool              `json:"accept"`
+	CC     int64             `json:"cc"`
+	PC     int64             `json:"pc"`
+	CA     int64             `json:"ca"`
+	PA     int64             `json:"pa"`
+	CB     int64             `json:"cb"`
+	PB     int64             `json:"pb"`
+	Merged bool              `json:"merged"` // balances only if the two assets are confused
 }
 
 var eraOrder = []string{"shelley", "allegra", "mary", "alonzo", "babbage", "conway", "dijkstra"}
@@ -115,9 +117,27 @@ func (r *row) caseKey() string {
 	if r.Mint != 0 || r.Mintb != 0 {
 		mint = fmt.Sprintf("%+d/%+d", r.Mint, r.Mintb)
 	}
-	return fmt.Sprintf("era=%s:certs=%s:pp=%d.%d.%d.%d:in=%s:out=%s:fee=%d:wd=%s:mint=%s:don=%d:prop=%d",
+	k := fmt.Sprintf("era=%s:certs=%s:pp=%d.%d.%d.%d:in=%s:out=%s:fee=%d:wd=%s:mint=%s:don=%d:prop=%d",
 		r.Era, strings.Join(r.Certs, "+"), r.PP.Key, r.PP.Pool, r.PP.Drep, r.PP.Gov,
 		ents(r.Ins), ents(r.Outs), r.Fee, ints(r.Wds), mint, r.Don, r.Nprop)
+	// the pool table is named only where it differs from the one every case had before
+	// the table became a coordinate (A, B unknown; old registered, no retirement pending)
+	for _, q := range poolNames {
+		if st := r.poolState(q); st != defaultPools[q] {
+			k += ":pool" + q + "=" + st
+		}
+	}
+	return k
+}
+
+var poolNames = []string{"A", "B", "old"}
+var defaultPools = map[string]string{"A": "unknown", "B": "unknown", "old": "registered"}
+
+func (r *row) poolState(q string) string {
+	if st, ok := r.Pools[q]; ok {
+		return st
+	}
+	return defaultPools[q]
 }
 
 // ---------------------------------------------------------------------------
@@ -512,6 +532,29 @@ func (g *gen) build(r *row, v *variant) (*built, error) {
 	}
 	// --- pools, ledger state -------------------------------------------------
 	p := &pools{a: g.h224(), b: g.h224(), old: g.h224()}
+	// the ledger state's pool table, as the case gives it: an unknown pool has no
+	// registration; a registered one has; a retiring one has a registration and the
+	// epoch of its announced retirement (any epoch: near, far, extreme)
+	type poolEntry struct {
+		reg    *common.PoolRegistrationCertificate
+		retire *uint64
+	}
+	table := map[common.PoolKeyHash]poolEntry{}
+	retireEpochs := []uint64{501, 0, 1, 1 << 32, 1<<63 - 1, 1<<64 - 1, 500, 10_000}
+	for i, q := range poolNames {
+		id := []common.PoolKeyHash{p.a, p.b, p.old}[i]
+		switch st := r.poolState(q); st {
+		case "unknown":
+		case "registered":
+			table[id] = poolEntry{reg: g.poolCert(id)}
+		case "retiring":
+			e := retireEpochs[g.rng.Intn(len(retireEpochs))]
+			table[id] = poolEntry{reg: g.poolCert(id), retire: &e}
+			b.dump["retirement_epoch_pool_"+q] = strconv.FormatUint(e, 10)
+		default:
+			return nil, fmt.Errorf("unknown pool state %q", st)
+		}
+	}
 	b.ls = mockledger.NewLedgerStateBuilder().
 		WithUtxoById(func(id common.TransactionInput) (common.Utxo, error) {
 			if u, ok := utxo[id.String()]; ok {
@@ -519,7 +562,17 @@ func (g *gen) build(r *row, v *variant) (*built, error) {
 			}
 			return common.Utxo{}, errors.New("utxo not found")
 		}).
-		WithPoolRegistrations([]common.PoolRegistrationCertificate{*g.poolCert(p.old)}).
+		WithPoolCurrentState(func(id common.PoolKeyHash) (*common.PoolRegistrationCertificate, *uint64, error) {
+			if e, ok := table[id]; ok {
+				var ep *uint64
+				if e.retire != nil {
+					v := *e.retire
+					ep = &v
+				}
+				return e.reg, ep, nil
+			}
+			return nil, nil, nil
+		}).
 		Build()
 	// --- body fields -------------------------------------------------------------
 	fee, err := u64(r.Fee, v.mc)
@@ -825,13 +878,16 @@ func main() {
 		}
 		// baseline: the harness can build an accepted and a rejected transaction for this era
 		type probe struct {
-			out int64
-			p2  bool
+			out   int64
+			p2    bool
+			rereg bool
 		}
-		probes := []probe{{2, false}, {1, false}}
+		// the last two: the same amounts with a certificate that re-registers a pool whose
+		// retirement is announced (no deposit: same answers)
+		probes := []probe{{2, false, false}, {1, false, false}, {2, false, true}, {1, false, true}}
 		if hasFlag(era) {
-			// the same two transactions flagged is_valid = false: same answers
-			probes = append(probes, probe{2, true}, probe{1, true})
+			// the first two flagged is_valid = false: same answers
+			probes = append(probes, probe{2, true, false}, probe{1, true, false})
 		}
 		for _, pr := range probes {
 			out := pr.out
@@ -839,6 +895,10 @@ func main() {
 			base.PP.Key, base.PP.Pool = 2, 3
 			if eraIdx(era) >= 5 {
 				base.PP.Drep, base.PP.Gov = 2, 3
+			}
+			if pr.rereg {
+				base.Certs = []string{"poolreg_old"}
+				base.Pools = map[string]string{"A": "unknown", "B": "unknown", "old": "retiring"}
 			}
 			v := g.variants(&base, 0)[0]
 			bt, err := g.build(&base, &v)
@@ -848,6 +908,9 @@ func main() {
 			key := fmt.Sprintf("baseline:era=%s:out=%d", era, out)
 			if pr.p2 {
 				key += ":p2invalid"
+			}
+			if pr.rereg {
+				key += ":rereg_retiring"
 			}
 			// replayable like a generated case (bin/check C27 --replay): the probe's two
 			// amounts are fixed here, in 3 = out 2 + fee 1 balances and out 1 does not
@@ -861,7 +924,9 @@ func main() {
 				}
 				rep.Case(key, true)
 				if (err == nil) != (out == 2) {
-					rep.Disagree(key, fmt.Sprintf("in 3 = out %d + fee 1%s: rule says %s", out, flagNote(pr.p2), errKind(err)), breplay)
+					rep.Disagree(key, fmt.Sprintf("in 3 = out %d + fee 1%s%s: rule says %s", out, flagNote(pr.p2),
+						map[bool]string{true: " [re-registration of a registered pool with an announced retirement: no deposit]"}[pr.rereg],
+						errKind(err)), breplay)
 				}
 			})
 		}
@@ -879,6 +944,7 @@ func main() {
 	sampled := map[string]bool{}
 	flagged := map[string]int{}
 	flaggedNoWire := map[string]int{}
+	reregRetiring := map[string]int{}
 	for idx := range rows {
 		r := &rows[idx]
 		er := rules[r.Era]
@@ -916,6 +982,14 @@ func main() {
 						stats["spec_accept"]++
 					} else {
 						stats["spec_reject"]++
+					}
+					if r.poolState("old") == "retiring" {
+						for _, k := range r.Certs {
+							if k == "poolreg_old" {
+								reregRetiring[r.Era]++
+								break
+							}
+						}
 					}
 					if r.P2 {
 						flagged[r.Era+":spec_"+map[bool]string{true: "accept", false: "reject"}[r.Accept]]++
@@ -997,6 +1071,7 @@ func main() {
 	rep.Extra["c27_wire_roundtrip_not_possible"] = wireSkipped
 	rep.Extra["c27_wire_roundtrip_first_error"] = wireErr
 	rep.Extra["c27_flagged_is_valid_false_evaluations"] = flagged
+	rep.Extra["c27_evaluations_reregistering_a_retiring_pool"] = reregRetiring
 	rep.Extra["c27_flagged_without_wire_roundtrip_flag_not_encodable"] = flaggedNoWire
 	rep.Extra["c27_not_judged"] = []string{
 		"Dijkstra direct deposits / sub-transactions (property silent; left empty)",
